@@ -219,6 +219,8 @@ def upload_buffer_oracle(obs):
                 cur += e['nbytes']
                 if cur > stats['max_buffered_upload_bytes']:
                     stats['max_buffered_upload_bytes'] = cur
+        elif e['kind'] == 'api.begin' and e.get('label') in stream_labels and e['op'] == 'UploadPart':
+            pass
         elif e['kind'] == 'api.ret' and e.get('label') in stream_labels and e['op'] in ('PutObject', 'UploadPart'):
             c = calls.get(e['call_id'])
             if c is not None and c['stage'] == 'request' and e['call_id'] in size_of:
@@ -226,6 +228,17 @@ def upload_buffer_oracle(obs):
                 x = [x for x in obs.xfers if x.label == e['label']][0]
                 if e['op'] == 'UploadPart' or x.spec.get('src') == 'nonseekable':
                     cur -= size_of[e['call_id']]
+    # every part body of a stream upload IS one of the buffers: none larger than max(chunksize, threshold)  (whole run)
+    stats['max_part_body'] = 0
+    flagged_body = False
+    for c in obs.world.s3.calls.values():
+        if c['op'] == 'UploadPart' and c.get('label') in stream_labels and c.get('received') is not None:
+            n = len(c['received'])
+            stats['max_part_body'] = max(stats['max_part_body'], n)
+            if n > unit and not flagged_body:
+                flagged_body = True
+                viol.append(V(f'{c["label"]}: a part body of {n} bytes was built in memory from the user stream; buffers are documented to be no larger '
+                              f'than max(chunksize, threshold)={unit}', sym='oversized-part-buffer'))
     # over the WHOLE run (also after a failure or cancel, while the submission thread keeps reading): every request-stage task that
     # carries a body held in memory (UploadPartTask of stream uploads, PutObjectTask of non-seekable ones) occupies one of the
     # max_in_memory_upload_chunks slots from the moment it is handed to the stage until it has finished
